@@ -120,6 +120,21 @@ ASSUMPTIONS = [
     "effects; a module-level helper name denotes the def of that name",
 ]
 
+EXPLANATION += (
+    "  R12.6 admits a value class for a declared atom the way msgspec "
+    "DECODES it (strict): `int` admits int only - a bool is not covered by "
+    "`int` (msgpack true/false is rejected for an int field although "
+    "isinstance(True, int) and construction/encoding never validate) -, "
+    "`float` admits float and int, `bool` bool, `str` str; so every value "
+    "class a constructor site can store (bool from pyi Pyval.to_pytd_literal "
+    "and output.py's TypedDict `total=False` / bool constants) must be named "
+    "by the annotation of Literal.value itself.")
+ASSUMPTIONS += [
+    "R12.6: msgspec decodes in strict mode (imports/pickle_utils.py builds "
+    "msgspec.msgpack.Decoder(type) without strict=False; not checked by a "
+    "rule): bool is rejected for int and float, int is accepted for float",
+]
+
 # rules/c12_sortkey.py (R12.7)
 EXPLANATION += (
     "  R12.7 (rules/c12_sortkey.py) the canonical order is computed on the "
@@ -1457,7 +1472,11 @@ def r12_6(ctx):
                 f"{' / '.join(outside)} here, but the field is declared "
                 f"{src(ann)}: msgspec does not validate on construction, so the "
                 "stub is built and printed, but the serialised stub cannot be "
-                "encoded or decoded again", facts)
+                "encoded or decoded again"
+                + (" (a bool is NOT covered by a declared `int` when msgspec "
+                   "decodes: the stub encodes, then DecodeAst raises "
+                   "ValidationError `Expected int | ..., got bool`)"
+                   if "bool" in outside else ""), facts)
       else:
         ctx.ok(base, rel, call.lineno, facts)
   if n == 0:
@@ -1898,6 +1917,26 @@ VARIANTS = [
      "new": "AstDecoder = msgspec.msgpack.Decoder(serialize_ast.SerializableAst)"},
     # -- R12.6 (the `twin-` variants also reject complex literals, the defect
     # the rule reports on the reference tree, so that they are silent there)
+    {"name": "seeded-C12-r4m2", "rule": "R12.6", "patch": "seeded/C12-r4m2/patch.diff",
+     "expect": "fire"},
+    {"name": "literal-value-bool-replaced-by-float", "rule": "R12.6", "file": PYTD, "expect": "fire",
+     "old": "  value: int | str | bool | TypeU | Constant\n",
+     "new": "  value: int | str | float | TypeU | Constant\n"},
+    {"name": "literal-value-declared-without-int", "rule": "R12.6", "file": PYTD, "expect": "fire",
+     "old": "  value: int | str | bool | TypeU | Constant\n",
+     "new": "  value: str | bool | TypeU | Constant\n"},
+    {"name": "literal-value-scalars-behind-alias-without-bool", "rule": "R12.6", "file": PYTD, "expect": "fire",
+     "old": "class Literal(Type, eq=False):\n  value: int | str | bool | TypeU | Constant\n",
+     "new": "_LiteralScalar = Union[int, str]\n\n\nclass Literal(Type, eq=False):\n  value: _LiteralScalar | TypeU | Constant\n"},
+    {"name": "twin-literal-value-members-reordered", "rule": "R12.6", "file": PYTD, "expect": "silent",
+     "old": "  value: int | str | bool | TypeU | Constant\n",
+     "new": "  value: bool | int | str | Constant | TypeU\n"},
+    {"name": "twin-literal-value-typing-union", "rule": "R12.6", "file": PYTD, "expect": "silent",
+     "old": "  value: int | str | bool | TypeU | Constant\n",
+     "new": "  value: Union[int, str, bool, TypeU, Constant]\n"},
+    {"name": "twin-literal-value-scalars-behind-alias", "rule": "R12.6", "file": PYTD, "expect": "silent",
+     "old": "class Literal(Type, eq=False):\n  value: int | str | bool | TypeU | Constant\n",
+     "new": "_LiteralScalar = Union[int, str, bool]\n\n\nclass Literal(Type, eq=False):\n  value: _LiteralScalar | TypeU | Constant\n"},
     {"name": "seeded-C12-m2", "rule": "R12.6", "patch": "seeded/C12-m2/patch.diff",
      "expect": "fire"},
     {"name": "output-stores-raw-str-or-bytes-literal", "rule": "R12.6",
